@@ -13,25 +13,21 @@ from the TDS 5.0 layout, not from the Go code), and the group entry points `encL
 Quirks of the Go code that are transcribed (not repaired):
 * `DoneProcPackage` and `DoneInProcPackage` are type aliases of `DonePackage`: one `WriteTo`, which
   always writes the token `TDS_DONE` (0xFD).
-* `EEDPackage.WriteTo` declares `11 + …` bytes, but `16 + …` bytes follow the length field (the four
-  length prefixes 1+2+1+1 are not counted); `ReadFrom` counts `16 + …` and rejects a mismatch, so
-  the library cannot read what it writes. `ReadFrom` strips one trailing `"\n"` of the message.
-* `ErrorPackage.ReadFrom` does not read the State and Class bytes (it reads `10 + …` bytes against
-  the `12 + …` that the TDS layout and its own `WriteTo` produce); State and Class stay 0.
+* `EEDPackage.ReadFrom` strips one trailing `"\n"` of the message (writer and reader agree on
+  `16 + …` bytes after the length field since commit 1e4c2ef).
 * `LoginAckPackage`: `WriteTo` writes the stored `Length` and `NameLength` fields, not the
   lengths of what follows; `ReadFrom` never compares `Length` with what it read.
 * `MsgPackage.ReadFrom` ignores the length byte.
-* `EnvChangePackage.ReadFrom` counts the bytes read in a `uint16` (`n += uint16(i)`: wraps modulo
-  65536); it stops when `n ≥ length` and rejects `n > length`.
+* `EnvChangePackage.ReadFrom` stops when `n ≥ length` and rejects `n > length` (`n` is an `int`
+  since commit 43248a8).
 * `CapabilityPackage.ReadFrom` starts from the three default masks of `NewCapabilityPackage`
   (request: 107 entries, response: 74, security: 1); `parseValueMask` of `L` bytes yields `8·L+1`
   entries; `valueMask.Bytes` of `n` entries yields `⌈n/8⌉` bytes, so a mask that was read grows by a
   leading zero byte when it is written again. `WriteTo` ranges over a Go map (random order): the
   model (and the harness, by re-sorting the real output) emits ascending type order. Types whose
   mask `isEmpty` (one entry, or no entry set) are not written.
-* `LanguagePackage.ReadFrom` reads `String(int(totalLength) - 1)`: a declared length 0 is
-  `Bytes(-1)` → `make([]byte, -1)` → panic.
-* `ReturnStatusPackage.WriteTo` writes no token.
+* `LanguagePackage.ReadFrom` rejects a declared length 0 with an error right after the length
+  field (commit c622599; before, `Bytes(-1)` panicked), so `int(totalLength) - 1 ≥ 0` at the read.
 * `LogoutPackage.ReadFrom` rejects every option byte other than 0.
 
 Truncations: `uint8(len(..))`, `uint16(len(..))`, `uint32(len(..))` are modelled by `leEncode w`, which
@@ -54,9 +50,10 @@ open Dblib
 
 /-! ### helpers -/
 
-/-- `for cond(st) { st = body(st) }` with fuel (`short` = not-enough-bytes); running out of fuel is not-enough-bytes. With fuel
-`≥` the length of the input and a body that consumes at least one byte per round the fuel is never
-exhausted (`Lemmas/CodecBasic.lean`: `loop_fuel_irrel`, `loop_fuel_mono`). -/
+/-- `for cond(st) { st = body(st) }` with fuel; running out of fuel answers `short`
+(not-enough-bytes). Both loops of this group get as fuel the declared length, which bounds the number
+of rounds because every round adds at least 2 to the byte counter: the fuel is never exhausted
+(`Lemmas/CodecBasic.lean`: `loop_fuel_enough`; `Props/C07/Basic.lean`: `envLoop_fuel`, `capLoop_fuel`). -/
 def short {α : Type} : P α := fun _ => .notEnough
 
 def loop {σ : Type} (cond : σ → Bool) (body : σ → P σ) : Nat → σ → P σ
@@ -160,9 +157,9 @@ def EED.payload (k : EED) : Bytes :=
   (byte k.status ++ (leEncode 2 k.tran ++ (leEncode 2 k.msg.length ++ (k.msg ++
   (byte k.server.length ++ (k.server ++ (byte k.proc.length ++ (k.proc ++ leEncode 2 k.line))))))))))))
 
-/-- `length := 11 + len(SQLState) + len(Msg) + len(ServerName) + len(ProcName)` -/
+/-- `length := 16 + len(SQLState) + len(Msg) + len(ServerName) + len(ProcName)` -/
 def EED.declared (k : EED) : Nat :=
-  11 + k.sqlState.length + k.msg.length + k.server.length + k.proc.length
+  16 + k.sqlState.length + k.msg.length + k.server.length + k.proc.length
 
 def EED.encBody (k : EED) : Bytes := leEncode 2 (EED.declared k) ++ EED.payload k
 def EED.enc (k : EED) : Enc := .ok (0xE5 :: EED.encBody k)
@@ -201,10 +198,11 @@ structure Error where
   line : Nat
 deriving Repr, DecidableEq
 
-/-- `ReadFrom`: no State / Class reads -/
 def Error.dec : P Error := do
   let expect ← P.u16
   let number ← P.intLE 4
+  let state ← P.u8
+  let cls ← P.u8
   let msgLen ← P.u16
   let msg ← P.take msgLen
   let srvLen ← P.u8
@@ -212,9 +210,9 @@ def Error.dec : P Error := do
   let procLen ← P.u8
   let proc ← P.take procLen
   let line ← P.u16
-  -- n = 4+2+msgLen+1+srvLen+1+procLen+2
-  if 10 + msgLen + srvLen + procLen ≠ expect then P.fail
-  else return { number, state := 0, cls := 0, msg, server, proc, line }
+  -- n = 4+1+1+2+msgLen+1+srvLen+1+procLen+2
+  if 12 + msgLen + srvLen + procLen ≠ expect then P.fail
+  else return { number, state, cls, msg, server, proc, line }
 
 def Error.payload (k : Error) : Bytes :=
   leEncodeInt 4 k.number ++ (byte k.state ++ (byte k.cls ++ (leEncode 2 k.msg.length ++ (k.msg ++
@@ -348,20 +346,18 @@ def Member.dec : P (Member × Nat) := do
   let old ← (if l2 > 0 then P.take l2 else Pure.pure [])
   return ({ typ, new, old }, 3 + l1 + l2)
 
-/-- loop state: `n` (a uint16) and `pkg.members` -/
+/-- loop state: `n` and `pkg.members` -/
 abbrev EnvState := Nat × List Member
 
 def envStep (st : EnvState) : P EnvState := do
   let (m, i) ← Member.dec
-  return ((st.1 + i) % 65536, st.2 ++ [m])
+  return (st.1 + i, st.2 ++ [m])
 
-def EnvChange.decFuel (fuel : Nat) : P EnvChange := do
+/-- every round adds at least 3 to `n`: `length` rounds of fuel are never exhausted -/
+def EnvChange.dec : P EnvChange := do
   let length ← P.u16
-  let st ← loop (fun st : EnvState => decide (st.1 < length)) envStep fuel (0, [])
+  let st ← loop (fun st : EnvState => decide (st.1 < length)) envStep length (0, [])
   if st.1 > length then P.fail else return { members := st.2 }
-
-/-- every round of the loop consumes at least three bytes: the length of the input is enough fuel -/
-def EnvChange.dec : P EnvChange := fun s => EnvChange.decFuel s.length s
 
 def Member.enc (m : Member) : Bytes :=
   byte m.typ ++ (byte m.new.length ++ (m.new ++ (byte m.old.length ++ m.old)))
@@ -532,6 +528,7 @@ deriving Repr, DecidableEq
 
 def Language.dec : P Language := do
   let total ← P.u32
+  if total = 0 then P.fail else       -- "invalid length 0 for language package"
   let status ← P.u8
   let cmd ← P.takeInt ((total : Int) - 1)     -- `ch.String(int(totalLength) - 1)`
   return { status, cmd }
@@ -568,9 +565,8 @@ def ReturnStatus.dec : P ReturnStatus := do
   let value ← P.intLE 4
   return { value }
 
-/-- `WriteTo` is `ch.WriteInt32(pkg.ReturnValue)`: no token -/
 def ReturnStatus.encBody (k : ReturnStatus) : Bytes := leEncodeInt 4 k.value
-def ReturnStatus.enc (k : ReturnStatus) : Enc := .ok (ReturnStatus.encBody k)
+def ReturnStatus.enc (k : ReturnStatus) : Enc := .ok (0x79 :: ReturnStatus.encBody k)
 
 /-- TDS layout: token, Value(4) -/
 def ReturnStatus.encSpec (k : ReturnStatus) : Bytes := 0x79 :: leEncodeInt 4 k.value
